@@ -44,7 +44,9 @@ def scenario_stream(rng, n):
             for r in sc["reqs"]:
                 r["wait"] = True
                 r["chunks"] = [rng.choice([40, 300, 600]) for _ in range(rng.choice([1, 2, 3]))]
-            sc["send_plan"] = [rng.choice([None, 20, 90, 0]) for _ in range(rng.choice([2, 6]))]
+            sb = sc["adj"]["send_bytes"]
+            sc["send_plan"] = [rng.choice([None, 20, 90, 0, ["left", sb], ["left", sb + 1], ["left", max(1, sb - 1)]])
+                               for _ in range(rng.choice([2, 6]))]
             yield "streaming-app", sc
         elif k < 0.78:
             yield "watermark0", cw.gen_scenario(rng, hw_choices=(0,), sb_choices=(1,))
